@@ -54,11 +54,12 @@ def run_extract():
     # command grammars and dispatch table (tools/extract_wire)
     wexe = os.path.join(BUILD, "extract_wire")
     wsrc = os.path.join(VERIF, "tools", "extract_wire")
-    if not os.path.exists(wexe) or os.path.getmtime(wexe) < os.path.getmtime(os.path.join(wsrc, "main.go")):
+    if not os.path.exists(wexe) or os.path.getmtime(wexe) < max(os.path.getmtime(os.path.join(wsrc, f)) for f in os.listdir(wsrc)):
         rc2, out2 = sh(["go", "build", "-o", wexe, "."], cwd=wsrc, env=GOENV)
         if rc2 != 0:
             return ["grammar extractor does not build: " + out2[-400:]]
-    rc2, out2 = sh([wexe, "-repo", REPO, "-ns", "Generated", "-out", os.path.join(LEAN, "RedkaModel", "Generated", "Grammar.lean")])
+    rc2, out2 = sh([wexe, "-repo", REPO, "-ns", "Generated", "-out", os.path.join(LEAN, "RedkaModel", "Generated", "Grammar.lean"),
+                      "-cmds", os.path.join(LEAN, "RedkaModel", "Generated", "Cmds.lean")])
     if rc2 != 0:
         return ["grammar extractor failed: " + out2[-400:]]
     with open(gj) as f:
